@@ -28,12 +28,12 @@ CLAIMED = {
    tech="AST->z3 VC generation with abstract selector index functions (deductive) + bounded native stand-in"),
  "C09": dict(cat="other", ref="DESIGN.md 4/C09",
    text="Derived quantities proved for every probe generation/stream with symbolic numeric fields and an abstract IMRO table of symbolic length: s2v*gain*maxint == range, 1 on sync, length == nSavedChans; nidq segments; type/fs/counts/sync indices. "
-        "write_meta_data writes an integer list as the plain decimal digits of its entries separated by commas, for every value (structured strings); the rest of the textual read->write->read round trip is a bounded stand-in over a grammar-generated corpus + shipped files (string theories do not decide float()/repr()). Every derived-quantity reader leaves the parsed dictionary as parsed (frame obligations reads_only.*), and range_volts asked again after the caller edited its copy is again the range.",
+        "write_meta_data writes an integer list as the plain decimal digits of its entries separated by commas, for every value (structured strings); the rest of the textual read->write->read round trip is a bounded stand-in over a grammar-generated corpus + shipped files (string theories do not decide float()/repr()). Every derived-quantity reader leaves the parsed dictionary as parsed (frame obligations reads_only.*), and range_volts asked again after the caller edited its copy is again the range. The gains of channel 0 that recent headers carry next to the IMRO table never stand in for a channel's own gain.",
    note="A-STR-FREE/A-SGLX (regex on imroTbl yields entries; split fields are the numbers). F-C09-1 (scalars < 1e-4) was repaired.",
    tech="AST->z3 VC generation over a symbolic metadata record (deductive) + bounded round-trip stand-in"),
  "C08": dict(cat="other", ref="DESIGN.md 4/C08",
    text="geometry_from_meta proved for site tables of any length in both encodings: the sort is a bijection moving every key together, ordered by (shank,row,-col); rc<->xy inverse on the three grids; the two encodings agree; split shank == restriction of the parent. "
-        "ADC tables: decided by exhaustive evaluation of adc_shifts over its whole finite domain (5 versions x nc 1..384) against the per-channel formula, stated as obligations (complete, no solver); canonical layouts: exhaustive native enumeration (every version x shank count against a per-channel description). The branch of geometry_from_meta without a site map (canonical layout x sort flag) and the independence of the ADC tables from what an earlier caller did to its copy are decided by exhaustive evaluation as well.",
+        "ADC tables: decided by exhaustive evaluation of adc_shifts over its whole finite domain (5 versions x nc 1..384) against the per-channel formula, stated as obligations (complete, no solver); canonical layouts: exhaustive native enumeration (every version x shank count against a per-channel description). The branch of geometry_from_meta without a site map (canonical layout x sort flag) and the independence of the ADC tables from what an earlier caller did to its copy are decided by exhaustive evaluation as well. The ADC-table domain includes the generation number held in NumPy scalars (int32 / int64 / float32 / float64).",
    note="A-NP-SPEC (lexsort, where), A-SGLX, map-string parsing summarised by contract. Known finding F-C08-1 (ADC delays for non-prefix channel subsets). History effects (caching across calls) only in the bounded stand-in (derives twice).",
    tech="AST->z3 VC generation with permutation/where specification axioms (deductive) + exhaustive enumeration of tables"),
  "C16": dict(cat="other", ref="DESIGN.md 4/C16",
@@ -53,7 +53,7 @@ CLAIMED = {
    tech="AST->z3 VC generation with an opaque-filter summary (deductive) + bounded numeric stand-in"),
  "C06": dict(cat="other", ref="DESIGN.md 4/C06",
    text="One symbolic batch of the real per-worker loop (nested my_function located by name, free variables symbolic): file position before each write, rows == kept range with the documented taper margins, sync columns bit-identical, "
-        "saturation slice (flags computed on the calibrated samples as read, before tapering), RMS/timestamp positions, loop invariant position == f(batch index), padding; the same for float32 output with the byte sizes computed by executing the set-up statements (positions in bytes of the output type); the set-up statements that create / size the files under the ghost file system: a fresh run truncates output, RMS and timestamp files, an appending run starts each at its current end, the per-sample saturation file is created with or without the rms (F-C06-2, repaired) and, when appending, keeps the entries of the runs already in the output and adds this run's after them (F-C06-3, repaired); the worker's start batch and boundary formulas; lemmas: batches tile [0,ns), consecutive workers leave no gap, writes are position-determined. The statements after the workers have finished run under contract too: RMS rows (batches x channels), timestamps and the per-sample saturation vector are published under the quality folder asked for, and the per-sample file stays next to the output for the next appending run.",
+        "saturation slice (flags computed on the calibrated samples as read, before tapering), RMS/timestamp positions, loop invariant position == f(batch index), padding; the same for float32 output with the byte sizes computed by executing the set-up statements (positions in bytes of the output type); the set-up statements that create / size the files under the ghost file system: a fresh run truncates output, RMS and timestamp files, an appending run starts each at its current end, the per-sample saturation file is created with or without the rms (F-C06-2, repaired) and, when appending, keeps the entries of the runs already in the output and adds this run's after them (F-C06-3, repaired); the worker's start batch and boundary formulas; lemmas: batches tile [0,ns), consecutive workers leave no gap, writes are position-determined. The statements after the workers have finished run under contract too: RMS rows (batches x channels), timestamps and the per-sample saturation vector are published under the quality folder asked for, and the per-sample file stays next to the output for the next appending run. The data flow of the opaque steps of a batch is stated as well: the last batch is re-aligned with the delays of the header resolved for the run, dead / noisy channels are repaired from the whole batch with the labels and coordinates of the run before the rows outside the brain are set aside.",
    note="All filtering is opaque (shapes only); saturation() through C16's contract; joblib schedules are not modelled (position-determinism is what is proved); byte identity across worker counts (incl. more workers than batches) / QC lengths via the bounded stand-in with a NumPy/SciPy shim for pyfftw. F-C06-1 (phantom batch) was repaired: a worker whose first batch is not real returns at once, proved to touch nothing and to lose nothing.",
    tech="AST->z3 VC generation on a nested closure with ghost file positions + arithmetic lemmas (deductive) + bounded native stand-in"),
  "C02": dict(cat="other", ref="DESIGN.md 4/C02",
@@ -78,12 +78,12 @@ CLAIMED = {
    tech="AST->z3 VC generation with order-statistics specification axioms (deductive) + bounded native stand-in"),
  "C18": dict(cat="other", ref="DESIGN.md 4/C18",
    text="fourier.convolve: inverse transform asked for the padded length, 'same' = centred crop for both parities, 'full' length; ns_optim_fft: look-up proved over an abstract strictly increasing table, the table's entries and completeness enumerated; freduce/fexpand mutually inverse on Hermitian spectra for both parities and any axis; "
-        "fscale == DFT bin frequencies; lp + hp == 1, bp == hp*lp on the filter vectors; cosine taper monotone in [0,1]; filters keep the shape and every output sample comes from the transforms of the input line through the same position along the requested axis (stated on the data flow, not on which axis the implementation transforms along); the public lp / hp / bp hand series, interval, corners, axis and type on to the filter.",
+        "fscale == DFT bin frequencies; lp + hp == 1, bp == hp*lp on the filter vectors; cosine taper monotone in [0,1]; filters keep the shape and every output sample comes from the transforms of the input line through the same position along the requested axis (stated on the data flow, not on which axis the implementation transforms along); the public lp / hp / bp hand series, interval, corners, axis and type on to the filter. freduce / fexpand also along the last axis counted from the end.",
    note="A-FFT (shapes, linearity; contents opaque), A-MATH (three facts about cos). Equality with direct convolution / FFT on the impulse basis is a bounded stand-in. F-C18-1 (ns_optim_fft above its table) and F-C18-3 (3-D, axis 0) were repaired.",
    tech="AST->z3 VC generation with FFT shape/Hermitian specification axioms (deductive) + bounded impulse-basis stand-in"),
  "C05": dict(cat="other", ref="DESIGN.md 4/C05",
    text="car: exactly one channel-axis reduction with the requested operator is subtracted, per-collection == per-group; kfilt/fk recursion over collections forwards every setting, hands each group over as its own channels in order and puts the result back on its rows; kfilt body: gain control only when a window is given, mirrored padding, padding rows dropped and gain multiplied back; destripe data-flow: high-pass -> fshift by +sample_shift along time -> interpolation -> "
-        "spatial filter on rows with label != 3, sync untouched; destripe called twice with the same settings dictionaries: the spatial step and the high-pass get exactly the caller's settings both times and the dictionaries are left as given; agc: out*gain == in wherever the returned gain is not zero, data untouched where it is zero, gain >= 0 (stated on the returned values only); the ADC delay tables destripe re-aligns with: C08's exhaustive table contract and C15's interpolation contract (only good / outside-brain channels are sources) re-checked. The header of one shank of a multi-shank probe carries each channel's own delay (C08 split_restriction re-checked).",
+        "spatial filter on rows with label != 3, sync untouched; destripe called twice with the same settings dictionaries: the spatial step and the high-pass get exactly the caller's settings both times and the dictionaries are left as given; agc: out*gain == in wherever the returned gain is not zero, data untouched where it is zero, gain >= 0 (stated on the returned values only); the ADC delay tables destripe re-aligns with: C08's exhaustive table contract and C15's interpolation contract (only good / outside-brain channels are sources) re-checked. The header of one shank of a multi-shank probe carries each channel's own delay (C08 split_restriction re-checked). car with a grouping in which some labels are carried by a single trace: one call per group, every group referenced.",
    note="median/mean are opaque reductions with translation equivariance (A-NP-SPEC); butter/sosfiltfilt/fshift/convolve opaque with shapes (A-SCIPY/A-FFT). 40 dB stripe attenuation / 90 % spike retention are numeric: bounded stand-in on synthetic stripes.",
    tech="AST->z3 VC generation with call-log data-flow obligations and modular recursion contracts (deductive) + bounded numeric stand-in"),
  "C07": dict(cat="other", ref="DESIGN.md 4/C07",
